@@ -68,7 +68,7 @@ def repr_rust(s):
 
 def run(ctx):
     ctx.rule = ("strings over {0,9,-,/,t,c,p,u,d,x}: exhaustive up to length 4 (quick) / 6 (thorough), plus random longer strings, "
-                "plus every 1-4 letter word over {t,c,p,u,d} as protocol suffix of valid port parts, single-symbol edits of valid values, plus quoted spellings with surrounding blanks; each converted through a [Container] unit; "
+                "plus every 1-4 letter word over {t,c,p,u,d} as protocol suffix of valid port parts, single-symbol edits of valid values, plus quoted spellings with surrounding blanks, plus values that are empty once unquoted ("" and '' alone and next to valid ports); each converted through a [Container] unit; "
                 "non-trivial = in the language or containing a digit; distinct = distinct strings")
     vals = []
     L = 6 if ctx.tier == "thorough" else 4
@@ -100,6 +100,9 @@ def run(ctx):
         for pre, post in [(" ", ""), ("", " "), (" \t", "  "), (" ", " ")]:
             v = pre + s + post
             vals.append((v, '"' + v.replace("\t", "\\t") + '"'))
+    # a value that is empty once unquoted is not a port either (an unquoted empty assignment is the reset of C15, not a value)
+    for sp in ['""', "''", '"" ', '" "', "'\\t'", '80\nExposeHostPort=""', '""\nExposeHostPort=80', "80\nExposeHostPort=''\nExposeHostPort=90/tcp", '"" ""']:
+        vals.append(("", sp))
     mism = 0
     for i in range(0, len(vals), 100000):
         mism += check(ctx, vals[i:i + 100000])
